@@ -270,6 +270,46 @@ func genC12(r *Rng, tier string) *Plan {
 		}
 		fitSigAlg(r, e, signer)
 	}
+	// "shadowed" profile extension: the profile carries an extension (neither optional nor override)
+	// of a kind that one of its users also configures itself, with other content - the certificate
+	// then holds both. Later only the profile's copy is edited.
+	shadowKind := ""
+	if len(g.Profs) > 0 && r.Chance(1, 5) {
+		var users []*EntitySpec
+		for _, e := range g.Ents {
+			if e.Profile == g.Profs[0].Name {
+				users = append(users, e)
+			}
+		}
+		if len(users) > 0 {
+			shadowKind = Pick(r, []string{"keyUsage", "extendedKeyUsage"})
+			strip := func(xs []ExtSpec) []ExtSpec {
+				var out []ExtSpec
+				for _, x := range xs {
+					if x.Kind != shadowKind {
+						out = append(out, x)
+					}
+				}
+				return out
+			}
+			structured := func() ExtSpec {
+				for {
+					if x := genExt(r, shadowKind, false); x.Raw == "" {
+						return x
+					}
+				}
+			}
+			p, u := g.Profs[0], Pick(r, users)
+			px := structured()
+			ox := structured()
+			for sameJSON(ox.Content, px.Content) {
+				ox = structured()
+			}
+			p.Exts = append(strip(p.Exts), px)
+			u.Exts = append(strip(u.Exts), ox)
+			g.P.Meta["shadowed-profile-ext"] = shadowKind
+		}
+	}
 	nextEnt := 0
 	if r.Chance(4, 5) {
 		g.Run(DefaultFlags, "early")
@@ -287,7 +327,24 @@ func genC12(r *Rng, tier string) *Plan {
 	if g.Ran && r.Chance(1, 5) {
 		parkAt = r.Intn(n)
 	}
+	shadowAt := r.Intn(n)
 	for i := 0; i < n; i++ {
+		if shadowKind != "" && i == shadowAt {
+			p := g.Profs[0].Clone()
+			for j := range p.Exts {
+				if p.Exts[j].Kind == shadowKind && p.Exts[j].Raw == "" {
+					for {
+						if nx := genExt(r, shadowKind, false); nx.Raw == "" && !sameJSON(nx.Content, p.Exts[j].Content) {
+							p.Exts[j].Content = nx.Content
+							break
+						}
+					}
+					g.Profs[0] = p
+					g.P.Add(Op{K: "put-prof", Prof: p, Label: "edit-shadowed-profile-ext"})
+					break
+				}
+			}
+		}
 		if i == parkAt {
 			var cands []*EntitySpec
 			for _, l := range g.leaves(true) {
